@@ -40,7 +40,7 @@ def field_deltas(ctx, body, owner, field):
                     lf = p
             if lf is None or s["place"]["p"][-1] is not lf:
                 continue
-            e = R.rvalue(s["rv"])
+            e = R.stmt_rvalue(bi, s)
             d = None
             if e[0] == "bin" and e[1] in ("Add", "Sub") and e[3][0] == "const":
                 base, names = field_chain(e[2])
@@ -67,8 +67,8 @@ def callers_exact(ck, ctx, rule, callee, allowed, floor=None):
     return sites
 
 
-def arg_expr(ctx, body, term, i):
-    return ctx.res(body).operand(term["args"][i])
+def arg_expr(ctx, body, bb, i):
+    return ctx.res(body).arg(bb, i)
 
 
 def is_field_of_param(e, field_path):
